@@ -643,7 +643,7 @@ def run(ck):
         "M: Model.lean is tied to the C++ templates by differential execution on double, compared bit for bit (slopes, values, first and second derivatives, integrals, mean values, error kinds)",
         "floating point: the theorems are about the algorithms over a linearly ordered field; rounding errors are not modelled",
         "NaN is not modelled (comparisons `a <= b` are read as `not (b < a)`); the check generates finite data only",
-        "buildInterpolation's single loop carrying ho/uo is modelled by closed-form entries with the same operations; the pivot tests of solveTridiagonalLinearSystem are modelled as one test per pivot",
+        "the repeated pivot tests of solveTridiagonalLinearSystem are modelled as one test per pivot (same outcome); the recursion computeIntegral(xb, xa) for swapped bounds is unfolded once",
         "derivative / integral statements are formal (polynomial identities per piece: Taylor expansion with explicit remainder), not statements about real analysis",
     ]
     samples = []
